@@ -34,9 +34,9 @@ CFG = {
     text="Theorems on the replica model (Model/Sync.lean: store + incrementally maintained tree; pull = hash both, serialise, diff, fetch ranges, merge, upsert): for replicas with different content a pull in at least one direction changes the receiver (join and peer-wins); n >= number of disagreeing keys two-way rounds end with equal stores and equal root hashes; under join the result is the pointwise join; converged replicas exchange nothing. The replica model itself is tied to the real code by the srand stream (schedules executed on real trees and on the model, ranges / fetched keys / stores / root hashes compared).",
     assumptions=[A_TOTAL, A_LVL, "NoCollisions: no digest collision among page pre-images during the run", "values are identified with their digests; merge = max on a linear order, or peer-wins", A_MODEL]),
  "C06": dict(streams=S("ssmall","srand","drand"), level="proof",
-    theorems=[P+"C06_refine", P+"C06_safe", P+"C06_live", P+"C06_peerWins_three_replicas_counterexample"],
-    text="PARTIAL in scope (join merge; atomic pulls), full in the quantifiers it covers: for ANY number of replicas and ANY schedule of writes and pulls (theorem, unbounded): no panic and every replica's tree mirrors its store at every step whatever its cache state (refinement); under join nothing is lost or invented (safety); after writes stop, n*|ops|+1 sweeps pulling between all ordered pairs in any order bring every replica to the join of everything written with equal root hashes (liveness). Peer-wins with >= 3 replicas admits a fair schedule that never converges: proved as a theorem on the model (C06_peerWins_three_replicas_counterexample), so that clause cannot hold for that merge; two-replica peer-wins is C05. Stale in-flight snapshots are exercised by the srand stream only.",
-    assumptions=[A_TOTAL, A_LVL, "NoCollisions", "join (max) merge; pulls atomic; values identified with their digests", A_MODEL]),
+    theorems=[P+"C06_refine", P+"C06_safe", P+"C06_live", P+"C06_peerWins_three_replicas_counterexample", P+"C06_refine_stale", P+"C06_safe_stale", P+"C06_live_stale"],
+    text="Join merge (peer-wins with >= 3 replicas is refuted by a theorem); pulls may be atomic OR split into a plan and a later fetch of stale/arbitrary ranges (C06_*_stale); full in the quantifiers it covers: for ANY number of replicas and ANY schedule of writes and pulls (theorem, unbounded): no panic and every replica's tree mirrors its store at every step whatever its cache state (refinement); under join nothing is lost or invented (safety); after writes stop, n*|ops|+1 sweeps pulling between all ordered pairs in any order bring every replica to the join of everything written with equal root hashes (liveness). Peer-wins with >= 3 replicas admits a fair schedule that never converges: proved as a theorem on the model (C06_peerWins_three_replicas_counterexample), so that clause cannot hold for that merge; two-replica peer-wins is C05. In-flight (planned, later applied) pulls are also exercised on the real code by the srand stream.",
+    assumptions=[A_TOTAL, A_LVL, "NoCollisions", "join (max) merge; values identified with their digests", A_MODEL]),
  "C07": dict(streams=S("dsmall","drand"), level="proof",
     theorems=[P+"C07", P+"C07_empty_local"],
     text="Theorems: under the span condition every peer entry the local tree lacks or holds with another digest lies in a returned range (soundness of every consistent mark via Merkle injectivity + contiguity of sub-pages; the whole peer span is marked inconsistent at the first iteration; reduce keeps bad minus good); an empty replica obtains the whole span.",
@@ -78,11 +78,11 @@ CFG = {
     text="PARTIAL. Theorems: rebuilding ranges from accessor values never panics and yields equal ranges; diff is the same in either argument position. 'A snapshot keeps describing the tree as it was' is ownership, true by construction in a functional model: modelled, not proved; decided by the harness (borrowed vs PageRangeSnapshot vs rebuilt diffs compared on every tree pair).",
     assumptions=[A_TOTAL, A_MODEL, "snapshot isolation (ownership) is not expressible in the functional model"]),
  "C17": dict(streams=S("vsmall","tsmall","tmid","trand"), level="proof",
-    theorems=[P+"C17_iter", P+"C17_stop", P+"C17_stop_prefix", P+"C17_protocol_page", P+"C17_protocol_node"],
+    theorems=[P+"C17_iter", P+"C17_stop", P+"C17_stop_prefix", P+"C17_protocol_page", P+"C17_protocol_node", P+"C17_protocol"],
     text="Theorems (every tree, every visitor, every stop index): the node iterator yields exactly the visit_node sequence; a visitor sees exactly the full callback sequence cut after the first false; the nesting protocol is the (6-line) definition of the trace, tied to the code by comparing every callback sequence incl. early stops, and checked independently by a grammar parser on the implementation side.",
     assumptions=[A_MODEL]),
  "C18": dict(streams=[dict(name="tcfg", profiles=["debug","release"], features=["","mst_default","mst_all"])], level="proof",
-    theorems=[P+"C18_base_content", P+"C18_generic"],
+    theorems=[P+"C18_base_content", P+"C18_generic", P+"C18_constructors"],
     text="PARTIAL. Theorems: every property theorem is universally quantified over key type, digest types, level function (hasher x base) and page hasher; the base changes only the shape, never the content; equal configurations agree. Not modelled: the three constructors, Builder, SipHasher::new(seed), feature-gated code - decided by the tcfg correspondence stream (bases, widths, key kinds, default/seeded/custom hashers, three constructors) across 3 feature sets x 2 profiles.",
     assumptions=[A_TOTAL, A_LVL, A_MODEL, "constructors / Builder / cargo features are glue decided by correspondence only"]),
 
